@@ -384,7 +384,8 @@ class Executor:
         goal = z3.simplify(z3.Or(*alts))
         if z3.is_true(goal):
             return
-        self.oblige(st, frame, 'frame', name.split('|')[1][-40:] + '.' + name.split('|')[2], goal, self.frame_props, 0,
+        parts = name.split('|')
+        self.oblige(st, frame, 'frame', parts[1][-40:] + '.' + (parts[2] if len(parts) > 2 else parts[0]), goal, self.frame_props, 0,
                     'write outside the modifies clause')
 
     def assume_refs(self, st, v):
@@ -488,6 +489,7 @@ class Executor:
         st.assume(st.alloc >= 1)
         self.entry_alloc = st.alloc
         self.modset = None
+        self.external_bound = None
         self.fresh_only_ok = set()
         # parameters
         for p in fn.params:
@@ -523,6 +525,8 @@ class Executor:
                 self.modset = []
                 for c in contract.modifies:
                     self.modset.extend(self.spec.lvalue_locs(c.ast, env))
+            if contract.external_below is not None:
+                self.external_bound = self.spec.eval_term(contract.external_below.ast, env)
         else:
             self.top_lets = {}
         frame.entry = st.fork()
@@ -571,14 +575,16 @@ class Executor:
                 self.oblige(st, frame, 'assert', lbl, t, cl.props, cl.line)
 
     # ------------------------------------------------------------------ the interpreter loop
-    def run(self, frame, b, i, prev, st, k):
+    def run(self, frame, b, i, prev, st, k, header_done=False):
         """execute from instruction i of block b; prev = predecessor block index (for phis)"""
         fn = frame.fn
         blocks = fn.blocks
         while True:
             blk = blocks[b]
             instrs = blk['instrs']
-            if i == 0:
+            if i == 0 and header_done:
+                header_done = False
+            elif i == 0:
                 # loop header?
                 loops = fn.loops()
                 if b in loops and self.cut_loops:
@@ -717,6 +723,7 @@ class Executor:
                 for cl in spec.invariants:
                     for lbl, t in self.spec.eval_conjuncts(cl, env):
                         self.oblige(st, frame, 'invariant', 'loop%d:%s:preserved' % (L['ord'], lbl), t, cl.props, cl.line)
+                        st.assume(t)   # the invariants are proved in order, each one under the previous ones
                 if spec.decreases is not None:
                     d_now = self.spec.eval_term(spec.decreases.ast, env)
                     d_old = info['decreases']
@@ -731,10 +738,12 @@ class Executor:
         self.assign_phis(frame, h, prev, st)
         info = {'entry_state': st.fork(), 'ord': L['ord']}
         if spec is not None:
-            env = self.loop_env(frame, st, info, h)
+            est = st.fork()
+            env = self.loop_env(frame, est, info, h)
             for cl in spec.invariants:
                 for lbl, t in self.spec.eval_conjuncts(cl, env):
-                    self.oblige(st, frame, 'invariant', 'loop%d:%s:entry' % (L['ord'], lbl), t, cl.props, cl.line)
+                    self.oblige(est, frame, 'invariant', 'loop%d:%s:entry' % (L['ord'], lbl), t, cl.props, cl.line)
+                    est.assume(t)   # proved in order, each one under the previous ones
         # ---- havoc
         W = self.loop_writes(fn, L)
         M = self.loop_mods(fn, L)
@@ -792,7 +801,7 @@ class Executor:
         i = 0
         while i < len(instrs) and instrs[i]['op'] == 'Phi':
             i += 1
-        self.run(frame, h, i, None, st, k)
+        self.run(frame, h, i, None, st, k, header_done=True)
 
     def assign_phis(self, frame, h, prev, st):
         newregs = {}
@@ -826,6 +835,11 @@ class Executor:
         env.loop_head = h
         env.loop_entry = info['entry_state']
         env.loop_iter = info.get('head_state')
+        env.outer_iter = None
+        for (h2, info2) in reversed(frame.loopstack):
+            if h2 != h and info2.get('head_state') is not None:
+                env.outer_iter = info2['head_state']
+                break
         nphi = 0
         for ins in frame.fn.blocks[h]['instrs']:
             if ins['op'] != 'Phi':
@@ -1122,6 +1136,8 @@ class Executor:
                             return None
                     elif f == 'cellsof':
                         out.add('H|bigint||Int')
+                    elif f == 'innermapsof':
+                        out |= self.map_heaps('map[string]*math/big.Int')
                     elif f in ('val', 'rat'):
                         out.add('H|bigint||Int' if f == 'val' else 'H|bigrat||Real')
                         bt = static_type(ast[2][0])
@@ -1693,6 +1709,9 @@ class Executor:
         present = z3.And(mref != 0, z3.Select(dom, key))
         leaves = []
         for (p, s, tk) in self.m.layout(V):
+            if p.endswith('#off'):
+                leaves.append(z3.IntVal(0))   # representation invariant of slices
+                continue
             vals = z3.Select(st.heap('MV|%s|%s|%s' % (u, p, s)), mref)
             leaves.append(z3.If(present, z3.Select(vals, key), self.m.zero(s)))
         v = Val(V, leaves)
@@ -2189,7 +2208,33 @@ class Executor:
         return self.db.get('extern', name)
 
     def call_extern_contract(self, st, frame, ins, name, c, args):
-        raise Unsupported('extern contracts not implemented yet: ' + name)
+        """call of a function outside the module under an ASSUMED contract (listed in the trusted base)"""
+        self.trusted.add('assumed contract: ' + name)
+        pseudo = Frame(frame.fn)
+        pseudo.params = {}
+        for pn, a in zip(c.extern_params, args):
+            pseudo.params[pn] = a
+        env = self.spec.env_for(pseudo, st, st, None)
+        env.extern = True
+        site = self.site_label(frame, 'call', ins)
+        for cl in c.requires:
+            for lbl, t in self.spec.eval_conjuncts(cl, env):
+                self.oblige(st, frame, 'pre', '%s:%s:%s' % (site, name.split('.')[-1], lbl), t, cl.props, ins.get('line', 0),
+                            'precondition of ' + name)
+                st.assume(t)
+        pre = st.fork()
+        res = lib.opaque_result(self, st, ins, name)
+        if res is None:
+            results = []
+        elif isinstance(res.py, list):
+            results = res.py
+        else:
+            results = [res]
+        env2 = self.spec.env_for(pseudo, st, pre, results)
+        env2.extern = True
+        for cl in c.ensures:
+            st.assume(self.spec.eval_bool(cl.ast, env2))
+        return res
 
     def events_add(self, st, kind, args, ins):
         self.events.append((kind, args, ins.get('line', 0), list(st.pc)))
